@@ -32,10 +32,11 @@ const (
 	rNoApplication  // success CEA without any application AVP
 	rUnknownApp     // success CEA whose only application is unknown to the dictionary
 	rDisconnect     // EOF
+	rVSUnknownApp   // success CEA whose only application is unknown and sits in a vendor-specific group after the Vendor-Id
 	nReplies
 )
 
-var rNames = []string{"silence", "success", "failure", "no-result-code", "no-origin-host", "no-application", "unknown-application", "disconnect"}
+var rNames = []string{"silence", "success", "failure", "no-result-code", "no-origin-host", "no-application", "unknown-application", "disconnect", "unknown-application-in-vendor-specific-group"}
 
 // extra CEAs after a successful handshake
 const (
@@ -54,6 +55,7 @@ type c12Script struct {
 	reply    int
 	delta    time.Duration // reply delay after that CER (< interval)
 	extras   []int
+	late     time.Duration // the transport's Write of a CER returns this much after the peer saw the bytes
 	apps     int  // 0..3 configured application kinds
 	nAddrs   int  // configured addresses
 	ipv6     bool // local endpoint when none configured
@@ -64,8 +66,8 @@ func (s c12Script) String() string {
 	for _, x := range s.extras {
 		ex += xNames[x] + " "
 	}
-	return fmt.Sprintf("MaxRetransmits=%d interval=%v: peer answers CER #%d with %s after %v; extra CEAs [%s]; client apps=%d addrs=%d ipv6=%v",
-		s.N, s.interval, s.atCER, rNames[s.reply], s.delta, ex, s.apps, s.nAddrs, s.ipv6)
+	return fmt.Sprintf("MaxRetransmits=%d interval=%v: peer answers CER #%d with %s after %v; transport Write returns %v late; extra CEAs [%s]; client apps=%d addrs=%d ipv6=%v",
+		s.N, s.interval, s.atCER, rNames[s.reply], s.delta, s.late, ex, s.apps, s.nAddrs, s.ipv6)
 }
 
 func ceaFor(reply int, hbh, e2e uint32) []byte {
@@ -84,6 +86,9 @@ func ceaFor(reply int, hbh, e2e uint32) []byte {
 		return peer.StdCEA(hbh, e2e, 2001)
 	case rUnknownApp:
 		return peer.StdCEA(hbh, e2e, 2001, 999)
+	case rVSUnknownApp:
+		return peer.Msg(0, 257, 0, hbh, e2e, append(append([]*refcodec.Node{peer.U32(peer.ResultCode, 2001)}, id...), append(rest,
+			peer.Group(peer.VSApp, peer.U32(peer.VendorID, 10415), peer.U32(peer.AuthApp, 999)))...)...)
 	}
 	return nil
 }
@@ -121,6 +126,15 @@ func runC12(c *ev.Case, ctx *lib.Ctx, sc c12Script) {
 		mc.Local = memnet.Addr{Net: "tcp", Str: "198.51.100.7:40000"}
 	}
 	cers := 0
+	if sc.late > 0 {
+		mc.Script = func(seq int, b []byte) memnet.Outcome {
+			o := memnet.Outcome{Accept: -1, StallAt: -1}
+			if len(b) >= 20 && peer.Header(b).Code == 257 {
+				o.Late = sc.late
+			}
+			return o
+		}
+	}
 	mc.OnWrite = func(w memnet.WriteRec) {
 		msgs, _ := peer.SplitMessages(w.Data)
 		if len(msgs) == 0 {
@@ -251,7 +265,7 @@ func runC12(c *ev.Case, ctx *lib.Ctx, sc c12Script) {
 		case errors.Is(err, smparser.ErrMissingApplication), errors.Is(err, smparser.ErrNoCommonApplication):
 			class = "no-application"
 		}
-		want := map[int]string{rSilence: "timeout", rFailure: "failed-result-code", rNoResultCode: "malformed", rNoOriginHost: "malformed", rNoApplication: "no-application", rUnknownApp: "no-application"}[sc.reply]
+		want := map[int]string{rSilence: "timeout", rFailure: "failed-result-code", rNoResultCode: "malformed", rNoOriginHost: "malformed", rNoApplication: "no-application", rUnknownApp: "no-application", rVSUnknownApp: "no-application"}[sc.reply]
 		if sc.atCER == 0 || sc.atCER > sc.N+1 || sc.reply == rSuccess {
 			want = "timeout"
 		}
@@ -356,9 +370,25 @@ func TestC12(t *testing.T) {
 			}
 		}
 	}
+	// transports with back-pressure: the Write of a CER returns late, the answer
+	// arrives while it is still running or shortly after
+	for N := 0; N <= 2; N++ {
+		for _, iv := range intervals {
+			for _, late := range []time.Duration{iv / 2, iv + iv/2, 3 * iv} {
+				for _, d := range []time.Duration{0, iv / 2, late + iv/2} {
+					for at := 1; at <= N+1; at++ {
+						for rep := 0; rep < 3; rep++ {
+							k++
+							scripts = append(scripts, c12Script{N: N, interval: iv, atCER: at, reply: rSuccess, delta: d, late: late, apps: 1 + k%3, nAddrs: k % 3})
+						}
+					}
+				}
+			}
+		}
+	}
 	rec.Suite("scripts", len(scripts), func(c *ev.Case) {
 		sc := scripts[c.I]
-		c.Class("N=%d/at=%d/reply=%s/extras=%d", sc.N, sc.atCER, rNames[sc.reply], len(sc.extras))
+		c.Class("N=%d/at=%d/reply=%s/extras=%d/late=%v", sc.N, sc.atCER, rNames[sc.reply], len(sc.extras), sc.late > 0)
 		before := len(lc.String())
 		leak := runBubbleWD(t, rec, c, 60*time.Second, func() { runC12(c, ctx, sc) })
 		if leak != "" && !c.Failed() {
